@@ -246,5 +246,8 @@ def run(ctx):
     ctx.count("types_with_skippable_fields", len(skip))
     ctx.count("types_with_required_fields", len(req))
     ctx.floor("derived types with skippable fields", len(skip), 50)
+    if ctx.tier == "thorough":
+        from .. import witness
+        witness.check(ctx, "C18.witness", {"C18RawFields": "Raw<T> fields are accessible from another crate: the JSON text can be replaced without going through from_json/new"})
     ctx.assumptions += ["content fixpoint under a second round trip for each of ~270 content types (hand-written serde helpers) is not decided"]
     ctx.samples += [{"enum": "AnyStateEvent", "arm": "m.room.aliases", "parsed_as": "StateEvent<RoomAliasesEventContent>", "variant": "RoomAliases"}]
